@@ -252,8 +252,11 @@ def gen_scenario(s: Choices, cls, cfg):
     sc["containers"] = [s.weighted([(8, "ndarray"), (1, "strided"), (2, "pandas")]), vc, s.weighted([(5, "ndarray"), (1, "pandas")])]
     # fault plan
     if cfg.get("fault_mode"):
-        kind = s.weighted([(3, "task_fail_before"), (3, "task_fail_after"), (2, "spawn_fail"), (2, "consumer_interrupt")])
+        kind = s.weighted([(3, "task_fail_before"), (3, "task_fail_after"), (2, "spawn_fail"), (2, "consumer_interrupt"), (2, "stmt_fail"), (2, "stmt_interrupt")])
         sc["fault"] = {"kind": kind, "k": s.draw(5)}
+        if kind.startswith("stmt_"):
+            # crash / interrupt before a drawn Python line of the library (position scaled by a traced dry run)
+            sc["fault"].update(pos=s.draw(1000), mode=s.draw(2))
     else:
         sc["fault"] = None
     return sc
@@ -602,9 +605,21 @@ def execute(sc, sched: Choices, cls, cfg):
             chunks = [pa.array(values[a:b], from_pandas=False) for a, b in zip(bounds[:-1], bounds[1:])]
         bw_values = pa.chunked_array(chunks, type=chunks[0].type)
         n_threads = ex[2]
-    ctx = executor.SimContext(sched=sched, workers=sc["workers"], cpu_count=4, fault=sc["fault"], monitor=True)
+    this_fault = sc["fault"]
+    if this_fault and this_fault["kind"].startswith("stmt_"):
+        from . import gen as _gen
+
+        dry = executor.LineTracer(None, mode=this_fault.get("mode", 0))
+        with executor.use_context(executor.SimContext(sched=sched, workers=sc["workers"], cpu_count=4)):
+            with dry:
+                _outcome(lambda: _call(kernel, codes_in, bw_values, ngroups, mask_in, n_threads, rc))
+        this_fault = _gen.arm_stmt_fault(this_fault, dry.count)
+        rec["probes"].append("stmt_fault_armed")
+    ctx = executor.SimContext(sched=sched, workers=sc["workers"], cpu_count=4, fault=this_fault, monitor=True)
     with executor.use_context(ctx):
         block = _outcome(lambda: _call(kernel, codes_in, bw_values, ngroups, mask_in, n_threads, rc))
+    if ctx.fault_where:
+        rec["fault_sites"] = [ctx.fault_where]
     rec["ticks"] = ctx.ticks
     rec["interleavings"] = ctx.interleavings()
     rec["events"] = ctx.event_digest()
